@@ -303,15 +303,20 @@ def model_op(op, kinds):
         return {k: v for k, v in op.items() if k not in ("fseed", "iseed")}
     if t == "construct":
         return {"t": t, "kind": op["kind"], "n": op["n"], "h": op["h"], "a": op.get("a")}
+    # the CONTENT of `initial_state` (and `overwrite`) is part of the operation: the value returned is a function of the start
+    # chains (k = 0 returns their clone), so equal (k, num, row count) with different rows must not be the same model operation
     if t == "sample":
         return {"t": t, "slot": op["slot"], "k": op["k"], "num": op["num"],
-                "init": None if op.get("init") is None else len(op["init"])}
+                "init": None if op.get("init") is None else len(op["init"]),
+                "arg": _arg({"init": op.get("init"), "ow": bool(op.get("overwrite"))})}
     if t == "obsSample":
         return {"t": t, "slot": op["slot"], "k": op["k"], "num": op["num"],
-                "init": None if op.get("init") is None else len(op["init"]), "arg": _arg({"obs": op["obs"], "ow": op.get("overwrite")})}
+                "init": None if op.get("init") is None else len(op["init"]),
+                "arg": _arg({"obs": op["obs"], "ow": op.get("overwrite"), "init": op.get("init")})}
     if t == "statistics":
         return {"t": t, "slot": op["slot"], "ns": op["ns"], "nc": op["nc"], "bi": op["bi"], "steps": op["steps"],
-                "init": None if op.get("init") is None else len(op["init"]), "arg": _arg({"obs": op["obs"], "ow": op.get("overwrite")})}
+                "init": None if op.get("init") is None else len(op["init"]),
+                "arg": _arg({"obs": op["obs"], "ow": op.get("overwrite"), "init": op.get("init")})}
     if t == "fit":
         bases = op.get("bases")
         M = None if bases is None else sum(1 for b in bases if set(b) <= {"Z"})
@@ -552,6 +557,30 @@ def interleave(rng, core, lo=2):
     return out
 
 
+def chain_block(rng, slot, n):
+    """the SAME stream position on the SAME unchanged object, three times (re-seeding with one seed; sampling is read-only), with start chains
+    A, B, A of equal shape and different content: results 1 and 3 are the same operation at the same stream position (model-equal, must be
+    bit-equal), result 2 is a DIFFERENT operation although (k, num_samples, row count) agree — the content of `initial_state` is part of the
+    operation (k = 0 returns the clone of the start chains).  Exercises `pattern/results` on what used to alias in the model."""
+    sd = seed_op(rng)
+    rows = rng.randint(1, 4)
+    A = bits_rows(rng, rows, n)
+    B = [list(r) for r in A]
+    i, j = rng.randrange(rows), rng.randrange(n)
+    B[i][j] = 1.0 - B[i][j]
+    k, num = rng.choice([0, 0, 1, 2]), rng.randint(1, 5)
+    cls = rng.choice(["sample", "sample", "obsSample"])
+    out = []
+    for init, ow in ((A, False), (B, False), (A, False), (A, True)):
+        op = {"t": cls, "slot": slot, "k": k, "num": num, "init": [list(r) for r in init]}
+        if cls == "obsSample":
+            op["obs"] = "SigmaZ"
+        if ow:
+            op["overwrite"] = True
+        out += [dict(sd), op]
+    return out
+
+
 def gen_history(rng, idx):
     """returns the case: three explicit op lists + the slot `b` from which parameters are compared"""
     main = seed_op(rng)
@@ -593,6 +622,7 @@ def gen_history(rng, idx):
         core[at:at] = [seed_op(rng), probe(min(cons), cons[min(cons)]["n"])]
     if idx % 5 == 3:
         core.insert(rng.randint(3, len(core)), {"t": "burn", "m": rng.randint(1, 9)})
+    core += chain_block(rng, min(cons), cons[min(cons)]["n"])
     for slot in sorted(cons):
         core.append(probe(slot, cons[slot]["n"]))
     runs = []
